@@ -83,3 +83,20 @@ void h_obj_find(void) {
   VASSERT(((r >> 1) & 1) == (unsigned)zsame, "a zero-terminated lookup finds the member iff the C string equals the whole key");
   if (same) VWITNESS("found"); else VWITNESS("absent");
 }
+
+/* ---- C18: object equality, both objects built with the low-level API; the shape bits are fixed per obligation */
+#ifndef YN
+#define YN 0
+#define WN 0
+#define KC 0
+#define SW 0
+#endif
+void h_objeq(void) {
+  int32_t x = (int32_t)vin_u8(), y = (int32_t)vin_u8(), z = (int32_t)vin_u8(), w = (int32_t)vin_u8();
+  unsigned r = w_objeq_low((uint32_t)x, (uint32_t)y, YN, (uint32_t)z, (uint32_t)w, WN, KC, SW); VASSUME(r != 99); VOBS(r);
+  int expect = x == z && !KC && (YN ? WN : (!WN && y == w));
+  VASSERT((r & 1) == (unsigned)expect, "objects are equal iff they have the same keys with equal values, whatever the member order (a missing key is not a null member)");
+  VASSERT(((r >> 1) & 1) == (unsigned)expect, "object equality is symmetric");
+  VASSERT(((r >> 2) & 1) == (unsigned)!expect, "!= is the negation of ==");
+  if (expect) VWITNESS("equal"); else VWITNESS("different");
+}
